@@ -23,6 +23,14 @@ func VerifHarness_C15_DecimalToProto() {
 	back, err := ParseDecimal(p.Value)
 	verifrt.Assert(err == nil, "proto-decimal-text-is-a-valid-decimal")
 	verifrt.Assert(decimal.Decimal(back).Cmp(d) == 0, "proto-decimal-preserves-the-value")
+	// the written scale is the FHIR decimal's precision: 1.10 stays 1.10
+	digits := 0
+	for i := 0; i < len(p.Value); i++ {
+		if p.Value[i] == '.' {
+			digits = len(p.Value) - i - 1
+		}
+	}
+	verifrt.Assert(digits == sh[0], "proto-decimal-preserves-the-scale")
 	verifrt.Reach("end")
 }
 
